@@ -313,6 +313,27 @@ def is_identity_call(t):
     return False
 
 
+def _payload_of_built(tag, x, depth):
+    """the success payload of a value whose every success alternative was built right here (`Ok(v)` / `Some(v)`): v.
+    Alternatives that are the failure variant (`Err(..)`, `None`, `from_residual(..)`) cannot flow into a success payload.
+    This is what a helper returning `Ok(expr)` looks like after inlining, followed by `?` in the caller."""
+    alts = x[1] if x[0] == "phi" else (x,)
+    good = []
+    for a in alts:
+        a = strip(a, depth + 1)
+        if a[0] == "agg" and a[2] in ("Err", "None"):
+            continue
+        if a[0] == "call" and isinstance(a[1], str) and a[1].endswith("::from_residual"):
+            continue
+        if a[0] == "agg" and len(a[3]) == 1 and ((a[2] == "Some") if tag == "Some" else (a[2] == "Ok")):
+            good.append(strip(a[3][0][1], depth + 1))
+            continue
+        return None
+    if not good:
+        return None
+    return good[0] if len(good) == 1 else ("phi", tuple(good))
+
+
 def strip(t, depth=0):
     """remove value-preserving wrappers: refs/derefs, identity-like calls, pointer coercions, `?`/await plumbing"""
     if depth > 60:
@@ -329,7 +350,13 @@ def strip(t, depth=0):
         # x? : Try::branch(x) then Continue payload  ==> payload of x
         if inner[0] == "call" and isinstance(inner[1], str) and inner[1].endswith("::branch") and "Try" in inner[1] or \
                 (inner[0] == "call" and inner[1] == "std::ops::Try::branch"):
-            return ("payload", "?", strip(inner[2][0], depth + 1))
+            src = strip(inner[2][0], depth + 1)
+            known = _payload_of_built("?", src, depth)
+            return known if known is not None else ("payload", "?", src)
+        if t[1] in ("Ok", "Some", "Continue"):
+            known = _payload_of_built(t[1], inner, depth)
+            if known is not None:
+                return known
         # awaited future: poll(...)@Ready.0
         if t[1] == "Ready" and inner[0] == "call" and len(inner[2]) == 2:
             fut = strip(inner[2][0], depth + 1)
